@@ -5,6 +5,7 @@ import Setec.Proofs.Base64
 import Setec.Proofs.CacheDoc
 import Setec.Proofs.Wire
 import Setec.Generated.Facts
+import Setec.Proofs.MonitorsSound
 /-!
 # C18 - secret bytes round-trip unchanged end to end, including through the CLI
 
@@ -140,5 +141,13 @@ theorem generated_checkPutText (valid : Bool) (value trimmed : Bytes) (f : Flags
     · have hl' : ((trimmed.length : Int) == (value.length : Int)) = false := by
         simp only [beq_eq_false_iff_ne, ne_eq]; omega
       cases hv : f.verbatim <;> cases ht : f.trimSpace <;> simp [hl, hl', interpChoice]
+
+/-- The clause `acknowledged_bytes_kept` the driver evaluates on every step of the real database -
+every version of every secret is still there with exactly its bytes, unless this very call
+deleted it - holds of the specification's own step in every state that satisfies the store
+invariant. -/
+theorem monitor_bytes_kept_sound (kv : KV.KV) (c : DB.Caller) (op : DB.Op) (aok sok : Bool) (h : KV.Inv kv) :
+    DBMon.c18_bytes_kept (MonSound.obsOf kv c op aok sok) = true :=
+  MonSound.c18_bytes_kept_sound kv c op aok sok h
 
 end Setec.C18
